@@ -485,7 +485,7 @@ PARTS = [
     Part("slices", e_slice, s_slice, quick=1500, thorough=50000, shards=8, rule="non-trivial: word longer than 2"),
     Part("trees", e_tree, s_tree, quick=1200, thorough=50000, shards=16, rule="non-trivial: >=2 concatenations and >=1 inversion"),
     Part("reject", e_reject, s_reject, quick=500, thorough=15000, shards=4, rule="every rejected construction/operand class"),
-    Part("ctor_atheris", eval_text("binseq"), kind="custom", custom=lambda ctx, n: run_campaign(ctx, "binseq", n), quick=0, thorough=150000, shards=4,
+    Part("ctor_atheris", eval_text("binseq"), kind="custom", custom=lambda ctx, n: run_campaign(ctx, "binseq", n), quick=0, thorough=150000, shards=4, only_tier="thorough",
          rule="coverage-guided (atheris/libFuzzer) campaigns on the str constructor: valid uint8 0/1 1-D data or ValueError/TypeError; thorough tier only"),
     Part("compare", e_cmp, s_cmp(), quick=1500, thorough=50000, shards=8, rule="non-trivial: noise component present or electrical_signal threshold"),
 ]
